@@ -19,6 +19,11 @@ Proof. exact dispatch_parquet. Qed.
 Theorem C13_csv_precision : forall p x, (Qabs (csv_round p x - x) <= (1#2) / pow10 p)%Q.
 Proof. exact csv_precision. Qed.
 
+(** a Molecules object stores positions, orientations and the feature table, and nothing derived from them: every view
+    (axes, matrices, rotation vectors, data frames) is recomputed from the current state (generated fact) *)
+Theorem C13_no_stale_views : molecules_store_only_pos_rot_features = true.
+Proof. reflexivity. Qed.
+
 Print Assumptions C13_layout.
 Print Assumptions C13_collision_rejected.
 Print Assumptions C13_df_roundtrip.
